@@ -673,5 +673,40 @@ func seqs40() []*mc.Seq {
 	out = append(out, makeSeq("v40-locked-downgrade-upgrade", []string{"C18", "C19"}, map[string]int{"quick": 4, "thorough": 6}, lockedPrefix40, downgradeLetters40))
 	out = append(out, makeSeq("v40-locked-downgraded-upgrade", []string{"C18"}, map[string]int{"quick": 4, "thorough": 6},
 		chain(lockedPrefix40, func(w *world, f failer) { w.client40("c1").downgrade(f, "O1", "a", accRead) }), downgradeLetters40))
+
+	// Lease time passing in steps of lease/2 while the client stays alive
+	// (RENEW, READ) but one of its open-owners stays quiet. O1 has TWO
+	// files open (a read+write, b read); the letters close one of them,
+	// downgrade, re-open, renew, read through the other file's state ID and
+	// let half a lease pass, deep enough (quick 7, minimum 6) for "CLOSE a, +lease/2, RENEW,
+	// +lease/2, +lease/2, any request": the open-owner's last seqid'ed
+	// operation is then 1.5 lease times old, the client's lease is not.
+	// Every state ID the bookkeeper is entitled to must still be known to
+	// the server, its leaf open, and READ through it must work.
+	out = append(out, makeSeq("v40-two-files-lease", []string{"C18"}, map[string]int{"quick": 7, "thorough": 10},
+		chain(prefix40Open("c1", "O1", "a", accBoth), func(w *world, f failer) {
+			w.client40("c1").open(f, "O1", "b", accRead, howNoCreate, false)
+		}), []letter{
+			l40close("c1", "O1", "a"), l40close("c1", "O1", "b"),
+			l40downgrade("c1", "O1", "a", accRead),
+			l40open("c1", "O1", "a", accRead, howNoCreate),
+			l40renew("c1"),
+			l40io(ioRead, "c1", "O1", "b", sidOpen, ""),
+			lAdvance(halfLease, "lease/2"),
+		}))
+	// The same with a second open-owner that is used while O1 stays quiet,
+	// and a lock-owner whose lock state hangs off the file that stays open.
+	out = append(out, makeSeq("v40-two-owners-lease", []string{"C18"}, map[string]int{"quick": 7, "thorough": 10},
+		chain(prefix40Open("c1", "O1", "a", accBoth), func(w *world, f failer) {
+			c := w.client40("c1")
+			c.open(f, "O1", "b", accBoth, howNoCreate, false)
+			c.lock(f, "O1", "b", "L1", rangeB0, false)
+		}, prefix40Open("c1", "O2", "a", accRead)), []letter{
+			l40close("c1", "O1", "a"),
+			l40close("c1", "O2", "a"), l40open("c1", "O2", "a", accRead, howNoCreate),
+			l40io(ioWrite, "c1", "O1", "b", sidLock, "L1"),
+			l40renew("c1"),
+			lAdvance(halfLease, "lease/2"),
+		}))
 	return out
 }
